@@ -376,4 +376,96 @@ theorem insertRef_length_le (v c : K) : ∀ (l : List (K × K)), (insertRef v c 
       · simp only [List.length_cons]; omega
       · simp
 
+/-! ## the generated control flow (`Gen.DistogramFlow`, from the source's AST) means what the proofs use
+
+Each lemma restates one model function over the generated tests in the form the proofs unfold.  A changed
+operator, a changed `bisect_left` key, or `_trim`'s loop turned into a single test breaks the lemma here. -/
+
+/-- `_trim` is a loop: as many turns as there are bins are available (`while`, not `if`). -/
+theorem trimTurns_eq (n : Nat) : Gen.DistogramFlow.trimTurns n = n := rfl
+
+/-- `_trim` runs while there are more bins than the limit. -/
+theorem trim_succ (fuel : Nat) (h : Hist K) :
+    trim (fuel + 1) h = if h.cap < h.bins.length then (trimStep h).bind (trim fuel) else .ok h := by
+  rw [trim]
+  simp only [Gen.DistogramFlow.trimGuard, decide_eq_true_eq, gt_iff_lt]
+
+/-- The `bisect_left` key is `(value, 1)`. -/
+theorem bisectLeft_def (value : K) (bins : List (K × K)) : bisectLeft value bins =
+    (bins.takeWhile (fun b => decide (b.1 < value) || (eqK b.1 value && decide (b.2 < 1)))).length := rfl
+
+/-- `index = 0` iff `value <= first centre`, else `index = -1` iff `value >= last centre`, else `bisect_left`. -/
+theorem locate_def (bins : List (K × K)) (value : K) : locate bins value =
+    match bins.head?, bins.getLast? with
+    | some b0, some bl =>
+      if value ≤ b0.1 then (false, 0)
+      else if bl.1 ≤ value then (true, bins.length - 1)
+      else (false, bisectLeft value bins)
+    | _, _ => (false, 0) := by
+  unfold locate
+  simp only [Gen.DistogramFlow.updFirst, Gen.DistogramFlow.updLast, decide_eq_true_eq, ge_iff_le]
+  cases bins.head? with
+  | none => rfl
+  | some b0 =>
+    cases bins.getLast? with
+    | none => rfl
+    | some bl => simp only []
+
+/-- the bounds after an insertion are the running minimum and maximum (whether the source tests `>` or `>=`) -/
+theorem bumpBounds_min (h : Hist K) (v : K) : (bumpBounds h v).min = some (minO h.min v) := by
+  unfold bumpBounds minO
+  cases h.min with
+  | none => rfl
+  | some m =>
+    simp only [Gen.DistogramFlow.bumpMin, decide_eq_true_eq]
+      <;> (simp only [Option.some.injEq]; split_ifs <;> first | rfl | (apply le_antisymm <;> linarith) | (exfalso; linarith))
+
+theorem bumpBounds_max (h : Hist K) (v : K) : (bumpBounds h v).max = some (maxO h.max v) := by
+  unfold bumpBounds maxO
+  cases h.max with
+  | none => rfl
+  | some m =>
+    simp only [Gen.DistogramFlow.bumpMax, decide_eq_true_eq]
+      <;> (simp only [Option.some.injEq]; split_ifs <;> first | rfl | (apply le_antisymm <;> linarith) | (exfalso; linarith))
+
+theorem bumpBounds_bins (h : Hist K) (v : K) : (bumpBounds h v).bins = h.bins := rfl
+theorem bumpBounds_cap (h : Hist K) (v : K) : (bumpBounds h v).cap = h.cap := rfl
+theorem bumpBounds_diffs (h : Hist K) (v : K) : (bumpBounds h v).diffs = h.diffs := rfl
+theorem bumpBounds_minDiff (h : Hist K) (v : K) : (bumpBounds h v).minDiff = h.minDiff := rfl
+
+theorem inPlaceTry_eq (neg : Bool) (idx len cap : Nat) :
+    Gen.DistogramFlow.inPlaceTry (if neg then -1 else (idx : Int)) len cap =
+      (!neg && decide (0 < idx) && decide (cap ≤ len)) := by
+  cases neg <;> simp [Gen.DistogramFlow.inPlaceTry]
+
+/-- the in-place shortcut is tried for a position `index > 0` (not an append) of a full histogram; whether its answer
+is taken (`in_place_index > 0` in the source) is left as the source has it — both outcomes refine the reference -/
+theorem afterHit_def (h : Hist K) (neg : Bool) (idx : Nat) (value count : K) : afterHit h neg idx value count =
+    if !neg && decide (0 < idx) && decide (h.cap ≤ h.bins.length) then
+      (if h.diffs.isNone then computeDiffs h else .ok h).bind fun h1 =>
+      (searchInPlaceIndex h1 value idx).bind fun r =>
+      match r with
+      | some ib =>
+        if Gen.DistogramFlow.inPlaceTake (ib : Int) then trimInPlace h1 value count ib
+        else insertTrim h1 neg idx value count
+      | none => insertTrim h1 neg idx value count
+    else insertTrim h neg idx value count := by
+  unfold afterHit
+  simp only [inPlaceTry_eq, decide_eq_true_eq]
+  split_ifs <;> rfl
+
+/-- a count `<= 0` is rejected; an exact hit (`vi == value`) adds the count to the bin -/
+theorem update_def (h : Hist K) (value count : K) : update h value count =
+    if count ≤ 0 then .error "ValueError" else
+    match (if 0 < h.bins.length then h.bins[(locate h.bins value).2]? else none) with
+    | some (vi, fi) =>
+      if eqK vi value then .ok { h with bins := h.bins.set (locate h.bins value).2 (vi, fi + count) }
+      else afterHit h (locate h.bins value).1 (locate h.bins value).2 value count
+    | none =>
+      if 0 < h.bins.length then .error "IndexError"
+      else afterHit h (locate h.bins value).1 (locate h.bins value).2 value count := by
+  unfold update
+  simp only [Gen.DistogramFlow.updCountBad, Gen.DistogramFlow.hitTest, Gen.DistogramFlow.hitCount, decide_eq_true_eq]
+  rfl
+
 end Distogram
